@@ -449,6 +449,39 @@ func everyPathTo(in ssa.Instruction, accept func(conds []fact) bool) (ok, decide
 	return found, true
 }
 
+// everyUnitPathTo: like everyPathTo, over the paths of root with its private helpers inlined (in may sit in a helper).
+func everyUnitPathTo(root *ssa.Function, in ssa.Instruction, accept func(conds []fact) bool) (ok, decided bool) {
+	if in.Parent() == root {
+		return everyPathTo(in, accept)
+	}
+	ps, pok := enumPathsU(root, 4000)
+	if !pok {
+		return false, false
+	}
+	found := false
+	for i := range ps {
+		p := &ps[i]
+		idx := p.indexOf(in)
+		if idx < 0 {
+			continue
+		}
+		found = true
+		n := 0
+		for _, x := range p.Instrs[:idx] {
+			if _, isIf := x.(*ssa.If); isIf {
+				n++
+			}
+		}
+		if n > len(p.Conds) {
+			n = len(p.Conds)
+		}
+		if !accept(p.Conds[:n]) {
+			return false, true
+		}
+	}
+	return found, found
+}
+
 func hasFactRec(in ssa.Instruction, pred func(f fact) bool, depth int) bool {
 	gs := guardsOfBlock(in.Block())
 	for _, f := range gs {
